@@ -3,7 +3,7 @@
    by Print Assumptions.  [hdr]/[parse] stand for encodeString(json(sourceFile)) and
    decodeString+unmarshalSourceFile; all that is assumed of them is [hdr_ok] for the entries
    at hand (decoder inverts encoder; no newline in an encoded header). *)
-From Trzsz Require Import Base.Bytes Gen.Consts Model.Archive Proofs.Archive Model.ArchiveMode Proofs.ArchiveMode.
+From Trzsz Require Import Base.Bytes Gen.Consts Model.Archive Proofs.Archive Model.ArchiveMode Proofs.ArchiveMode Model.Names Model.ArchiveNames Proofs.ArchiveNames.
 From Coq Require Import ZArith Lia.
 
 (* the size announced for the stream is the number of bytes produced, when every file has
@@ -180,3 +180,55 @@ Example C15_mode_nonvacuous :
     AmoStep (mkAmoName (amo_id s) (amo_rel s) (amo_isdir s) false (amo_size s)) 0
             (if amo_isdir s then AmoSNone else AmoSFile) (if amo_isdir s then AmoRNone else AmoRFile)) exm_scan).
 Proof. split; reflexivity. Qed.
+
+(* ------------------------------------------------------------------------------------ *)
+(* NAMES over the whole of Unicode.  Every path element of a NAME record and of every entry
+   header goes through checkFileName ([valid_name], its constants regenerated from the
+   source).  It is a test on the BYTES of the name: refused iff empty, ".", ".." or a byte
+   '/' occurs ... *)
+Theorem C15_names_bytes : forall nm,
+  valid_name nm = true <-> nm <> [] /\ nm <> [46] /\ nm <> [46; 46] /\ ~ In 47 nm.
+Proof. exact valid_name_bytes. Qed.
+Print Assumptions C15_names_bytes.
+
+(* ... hence, for a name given by its code points (any values: surrogates and values above
+   U+10FFFF become U+FFFD as in Go), refused iff it is empty, ".", "..", or the CODE POINT
+   U+002F occurs: no other code point - whatever its low byte, its UTF-16 units or its UTF-8
+   bytes look like - is taken for a separator, a dot or an end of string *)
+Theorem C15_names_unicode : forall cps,
+  anm_valid cps = true <-> cps <> [] /\ cps <> [46] /\ cps <> [46; 46] /\ ~ In 47 cps.
+Proof. exact anm_valid_spec. Qed.
+Print Assumptions C15_names_unicode.
+
+Example C15_names_nonvacuous :
+  anm_valid [1071] = true /\ anm_valid [39321; 28207] = true /\ anm_valid [128047] = true /\
+  anm_valid [92] = true /\ anm_valid [46; 46; 46] = true /\ anm_valid [97; 47; 98] = false /\
+  anm_utf8 [1071; 28207; 128047] = [208; 175; 230; 184; 175; 240; 159; 144; 175].
+Proof. vm_compute. repeat split. Qed.
+
+(* ------------------------------------------------------------------------------------ *)
+(* THE ARCHIVE STREAM AS A SOURCE FILE.  sendCompressFlag on an archive reader, for every
+   protocol, compression type, binary flag and announced size: it never fails, and whenever
+   the configuration and the size leave the decision open the answer is "compress" - given by
+   the no-file guard of isCompressionProfitable, read from the source together with the type
+   of the variable it compares (a nil *os.File in an interface variable is not nil).  The
+   stream is not an argument of the decision. *)
+Theorem C15_stream_compress : forall proto ctype binary size,
+  amo_archive_compress proto ctype binary size <> AmoCompErr /\
+  (forall c, amo_archive_compress proto ctype binary size = AmoCompProbed c -> c = true).
+Proof. exact amo_archive_compress_ok. Qed.
+Print Assumptions C15_stream_compress.
+
+(* with the decision list of the current source: auto, protocol >= 3, 128 KiB or more *)
+Theorem C15_stream_compress_auto_large : forall proto binary size,
+  3 <= proto -> 131072 <= size ->
+  amo_archive_compress proto Consts.tr_compress_auto binary size = AmoCompProbed true.
+Proof. exact amo_archive_compress_auto_large. Qed.
+Print Assumptions C15_stream_compress_auto_large.
+
+Theorem C15_stream_consts :
+  Consts.archive_reader_file_nil = true /\ Consts.archive_probe_guard_fires = true /\
+  Consts.archive_probe_nofile_compress = true.
+Proof. exact archive_stream_consts_ok. Qed.
+Print Assumptions C15_stream_consts.
+
